@@ -188,7 +188,9 @@ def helpers(rep):
     mvar = c.func.id
     rep.ob("O7.1", "R2", fi, [norm(x) for x in c.args[:2]] == fi.params[:2], c, "the matcher is built (G1, G2) so that .mapping is G1 -> G2 as documented", node=c)
     defs = local_defs(fi.node)
-    kinds = {norm(d.value).split(".")[-1] for d in defs.get(mvar, []) if d.value is not None}
+    def leaves(e):
+        return leaves(e.body) + leaves(e.orelse) if isinstance(e, ast.IfExp) else [e]
+    kinds = {norm(l).split(".")[-1] for d in defs.get(mvar, []) if d.value is not None for l in leaves(d.value)}
     rep.ob("O7.1", "R2", fi, kinds <= M.MATCHER_CLASSES and bool(kinds), sorted(kinds), "the matcher class is a networkx (Di/Multi)GraphMatcher")
     rets = [r for r in returns_of(fi.node) if r.value is not None and "mapping" in norm(r.value)]
     pm = parent_map(fi.node)
